@@ -18,8 +18,9 @@ SPEC = {
         'cut off the buffer before any operation that can raise (so a retry never re-sends it); flush and sendall delegate to '
         'send. T12 netstring framing: the writer emits digits + b":" + payload + b"," and the reader reads until b":", parses '
         'an int, reads exactly that many bytes and requires b"," - the same two constants in the same order. Not decided: '
-        'slice arithmetic (rolling search offset, surplus bytes), maxsize boundaries, duplication within slices.'),
-    'decided': ['T10 no received byte is dropped on any exit of the receive methods', 'T9 send buffer advanced before any raising step',
+        'slice arithmetic (rolling search offset, surplus bytes), maxsize boundaries, duplication within slices.'
+        ' T9.nslimit: read_ns with a per-call maxsize derives the size-prefix limit from that maxsize.'),
+    'decided': ['netstring prefix limit follows the effective maxsize', 'T10 no received byte is dropped on any exit of the receive methods', 'T9 send buffer advanced before any raising step',
                 'T12 netstring writer/reader constants agree', 'T7 look-back window of the rolling delimiter search covers every delimiter length (linear form)'],
     'declined': ['offset / slice arithmetic in recv_until and recv_size', 'maxsize boundary behaviour'],
     'trusted_base': ['socket.timeout is a subclass of OSError; only socket calls and explicit raises can fail between taking and storing bytes (len/int arithmetic cannot)'],
